@@ -47,7 +47,7 @@ func (c10) Assumptions() []string {
 }
 func (p c10) per(c *run.Ctx) (int, int) {
 	if c.Tier == "thorough" {
-		return 100, 700
+		return 150, 1000
 	}
 	return 8, 180
 }
